@@ -298,6 +298,11 @@ func (e *Engine) callFunction(s *State, fr *Frame, dst *ssa.Call, f *ssa.Functio
 		setResult(rv)
 		return nil, false
 	}
+	if e.atHavoc(fr, anchor) {
+		rv := e.modularCall(s, fr, havocContract(key), key, f.Signature, args, site, anchor, f)
+		setResult(rv)
+		return nil, false
+	}
 	// inline
 	if len(s.frames) > 24 {
 		e.bail("inline depth exceeded at %s (recursion?)", key)
@@ -412,7 +417,7 @@ func (e *Engine) modularCall(s *State, fr *Frame, c *FuncContract, key string, s
 		if i >= len(args) {
 			break
 		}
-		if pv, ok := args[i].(*Ptr); ok && pv.Kind == pkObj && !c.Nullable[n] && f != nil {
+		if pv, ok := args[i].(*Ptr); ok && pv.Kind == pkObj && !c.Nullable[n] && f != nil && c.Flags["site_havoc"] == "" {
 			if v, ok := litValue(pv.Ref); ok && v.Sign() != 0 {
 				continue
 			}
